@@ -339,8 +339,11 @@ class Result:
                 ev["coverage"]["code_coverage"] = {"error": str(ex)[:300]}
             finally:
                 cw.cleanup()
-        os.makedirs(os.path.join(VERIF, "evidence"), exist_ok=True)
-        with open(os.path.join(VERIF, "evidence", self.prop + ".json"), "w") as f:
+        # evidence/ describes runs against /repo itself; a run against another tree (VERIF_REPO: seeded changes, harmless
+        # rewrites) leaves its record under .work/ instead
+        evdir = os.path.join(VERIF, "evidence") if os.path.realpath(REPO) == "/repo" else os.path.join(WORKROOT, "evidence-other-tree")
+        os.makedirs(evdir, exist_ok=True)
+        with open(os.path.join(evdir, self.prop + ".json"), "w") as f:
             json.dump(ev, f, indent=1, sort_keys=True)
         for k in self.known:
             print("KNOWN-FINDING: property=%s %s" % (self.prop, k))
